@@ -208,3 +208,71 @@ def mocks_queue(chk, unlimited):
             name, meta[i][0], meta[i][1], code[:160], model[:160]),
             {"case": lines[i], "function": name, "code": code, "model": model, "how": "printf '%s\\n' | ocaml/driver code" % lines[i]})
     return [(meta[i], name) for i, name, _, _ in diffs]
+
+
+# ------------------------------------------------------------------------------------------
+# the walk over the suite tree (run_every_test / run_named_test translated from src/runner.c + src/suite.c)
+# ------------------------------------------------------------------------------------------
+def _shapes(n):
+    """every ordered forest with n nodes, a node being a test ('t') or a suite (the list of its children)"""
+    if n == 0:
+        yield []
+        return
+    for first in range(1, n + 1):           # size of the first tree of the forest
+        for rest in _shapes(n - first):
+            if first == 1:
+                yield ["t"] + rest
+            for kids in _shapes(first - 1):
+                yield [kids] + rest
+
+
+def walk_trees(chk):
+    """all trees whose root suite has up to 4 (quick) / 5 nodes below it"""
+    maxn = 4 if chk.tier == "quick" else 5
+    return [forest for n in range(0, maxn + 1) for forest in _shapes(n)]
+
+
+def _flat(f):
+    for x in f:
+        yield x
+        if isinstance(x, list):
+            yield from _flat(x)
+
+
+def _to_nodes(forest, ctr, flags, shared):
+    out = []
+    for x in forest:
+        if x == "t":
+            ctr["t"] += 1
+            tid = 1 if (shared and ctr["t"] in (1, 3)) else ctr["t"]       # the same test registered twice
+            out.append(L.Test(tid, body=[("c", 1)]))
+        else:
+            ctr["s"] += 1
+            sid = ctr["s"]
+            s = L.Suite(sid, has_setup=bool(flags >> (2 * sid % 6) & 1), has_teardown=bool(flags >> ((2 * sid + 1) % 6) & 1))
+            s.children = _to_nodes(x, ctr, flags, shared)
+            out.append(s)
+    return out
+
+
+def walk(chk):
+    """translated run_every_test() / run_named_test() against the order of events of Runner.run_node / run_named"""
+    lines, meta = [], []
+    for forest in walk_trees(chk):
+        for flags in ((0, 0b111111, 0b011010) if chk.tier == "quick" else (0, 0b111111, 0b011010, 0b100101, 0b000110)):
+            for shared in (False, True):
+                ctr = {"t": 0, "s": 0}
+                root = L.Suite(0, has_setup=bool(flags & 1), has_teardown=bool(flags & 2))
+                root.children = _to_nodes(forest, ctr, flags, shared)
+                sx = L.node_sexp(root)
+                if not shared:
+                    lines.append("(walk forked %s)" % sx); meta.append(root)
+                    lines.append("(walk inproc %s)" % sx); meta.append(root)
+                for k in sorted({t.tid for s, t in root.tests()} | {99})[:3]:
+                    lines.append("(walk-named %d %s)" % (k, sx)); meta.append(root)
+    diffs = _run_pairs(chk, lines, "walk")
+    for i, name, code, model in diffs[:3]:
+        chk.disagreement("translated %s differs from the runner model in the order of suite starts, fixtures, tests and suite ends on the tree %s: code %s, model %s" % (
+            "run_every_test()" if name == "walk" else "run_named_test()", L.node_sexp(meta[i])[:300], code[:200], model[:200]),
+            {"case": lines[i], "code": code, "model": model, "how": "printf '%s\\n' | ocaml/driver code" % lines[i][:2000]})
+    return [(lines[i], meta[i]) for i, _, _, _ in diffs]
